@@ -2157,6 +2157,7 @@ func TestCheck(t *testing.T) {
 			"crash family: deletes are flushed (DeleteSeriesID(id, true)); an acknowledged delete must then stay deleted. Unflushed deletes are not part of the crash histories",
 			"crash family: an insert entry found in a segment after recovery that nobody acknowledged and that is not a key of the create in flight (a torn entry read back as a complete one with a truncated key) is NOT judged — the statement only protects series that had been created; it is counted (crash_images_with_unacknowledged_foreign_entries, outcome suffix /foreign-entries)",
 			"crash family: the second restart is a clean Close + Open after the re-creation",
+			"the crash family runs first and may use at most half of the wall budget (30 s quick / 390 s thorough); beyond that it is capped (exhaustive:false), never an alarm",
 		},
 		Run: func(c *vlib.Ctx) {
 			runCrash(c) // crash family first: of fixed size, so a budget cap always lands in the sequence families
